@@ -58,6 +58,7 @@ typedef struct {
     /* current generate call, for offset recovery */
     const uint8_t *out; size_t out_size; const uint8_t *sentinel; size_t scan;
     unsigned long magic;
+    const uint8_t *fixed;    /* corpus cases: deliver exactly these 32 bytes */
 } cb_t;
 
 static size_t entropy_cb(void *ud, unsigned char *buf, size_t size)
@@ -79,7 +80,7 @@ static size_t entropy_cb(void *ud, unsigned char *buf, size_t size)
         c->scan = p;
         e->off = p;     /* first 32-byte block still untouched; a trailing partial block is never followed by a request */
     }
-    if (d > 0) { size_t i, n = (size_t)d < size ? (size_t)d : size; for (i = 0; i < n; ++i) buf[i] = (uint8_t)rnd64(&c->ent); }
+    if (d > 0) { size_t i, n = (size_t)d < size ? (size_t)d : size; for (i = 0; i < n; ++i) buf[i] = c->fixed ? c->fixed[i & 31] : (uint8_t)rnd64(&c->ent); }
     if (c->keep_bytes && size >= 32) memcpy(e->after, buf, 32);
     e->ret = (size_t)d;
     ++c->nreq;
@@ -90,10 +91,10 @@ static void cb_reset(cb_t *c, uint64_t seed, uint64_t idx, const int *script, in
 {
     c->ent = rng_for(seed, 0xE27, idx);
     c->script = script; c->nscript = nscript; c->nreq = 0; c->nev = 0; c->keep_bytes = keep;
-    c->out = NULL; c->out_size = 0; c->sentinel = NULL; c->magic = 0xCB;
+    c->out = NULL; c->out_size = 0; c->sentinel = NULL; c->magic = 0xCB; c->fixed = NULL;
 }
 
-static unsigned long long n_eval, n_ops, n_gen, n_feed, n_reseed, n_setlimit, n_events, n_auto_events, n_bytes_out,
+static unsigned long long n_special, n_eval, n_ops, n_gen, n_feed, n_reseed, n_setlimit, n_events, n_auto_events, n_bytes_out,
     n_bytes_cmp, n_status, n_twin, n_seq_exh, n_budget_segments, n_null_runs, n_patterns, n_distinct_blocks_checked, n_long_streams, n_near_wrap;
 static unsigned long long max_since = 0;
 
@@ -786,6 +787,50 @@ int main(int argc, char **argv)
                   if (mine(&a, idx)) budget_placed(&a, idx, (unsigned long)((1L << PW[pw]) + d), f, LIMS[l], pre);
               } }
         } else if (a.batch == 0) emit_info("near-counter-wrap histories skipped: this build has no RWEATHER_TINYJAMBU_VERIF hook");
+    } else if (!strcmp(a.mode, "special")) {
+        /* corpus (model/mine.c): seeds and personalisation strings for which, while some block <= 48 is produced, a word of
+         * V + H is 0 / ffffffff, a word of the new V or of the output is 0 / ffffffff, or the block begins like its
+         * predecessor.  Three call shapes, each against the model, maximum limit so that no reseed interferes. */
+        FILE *f = special_open();
+        special_t sp;
+        if (!f) { if (a.batch == 0) emit_info("special corpus not available ($VERIF_SPECIAL)"); }
+        else {
+            while (special_next(f, &sp)) {
+                uint8_t seed[32], custom[64];
+                size_t cl, total, pos;
+                int shape, blk;
+                if (strcmp(sp.tok[0], "prng") || sp.ntok < 5) continue;
+                special_unhex(sp.tok[1], seed, 32); cl = special_unhex(sp.tok[2], custom, sizeof custom); blk = atoi(sp.tok[3]);
+                total = (size_t)(blk + 6) * 32 + 5;
+                for (shape = 0; shape < 3; ++shape, ++idx) {
+                    tinyjambu_prng_state_t st;
+                    static cb_t cb;
+                    rng_t r = rng_for(a.seed, 0x5BEF, (uint64_t)idx);
+                    m_drbg_t sh;
+                    static uint8_t got[64 * 32], exp[64 * 32];
+                    if (!mine(&a, idx)) continue;
+                    set_case("{\"h\":\"prng\",\"mode\":\"special\",\"i\":%ld,\"custom\":\"%s\",\"block\":%d,\"pattern\":\"%s\",\"shape\":%d}", idx, sp.tok[2], blk, sp.tok[sp.ntok - 1], shape);
+                    ++n_eval; ++n_special; cls_add(mix64(0x5BEF, (uint64_t)idx)); if (idx % 29 == 0 || a.only >= 0) emit_sample();
+                    cb_reset(&cb, a.seed, (uint64_t)idx, NULL, 0, 1); cb.fixed = seed;
+                    memset(&st, 0x3D, sizeof st);
+                    tinyjambu_prng_init_user(&st, entropy_cb, &cb, cl ? custom : NULL, cl);
+                    tinyjambu_prng_set_reseed_limit(&st, 1048576);
+                    m_drbg_init(&sh, seed, custom, cl); m_drbg_set_limit(&sh, 1048576);
+                    for (pos = 0; pos < total; pos += 32) m_drbg_block(&sh, exp + pos, total - pos < 32 ? total - pos : 32);
+                    memset(got, 0x99, sizeof got);
+                    if (shape == 0) tinyjambu_prng_generate(&st, got, total);
+                    else if (shape == 1) for (pos = 0; pos < total; pos += 32) tinyjambu_prng_generate(&st, got + pos, total - pos < 32 ? total - pos : 32);
+                    else for (pos = 0; pos < total; ) { size_t n2 = 32 * (1 + rnd(&r, 3)); if (n2 > total - pos) n2 = total - pos; tinyjambu_prng_generate(&st, got + pos, n2); pos += n2; }
+                    n_gen += 1; n_bytes_out += total; n_bytes_cmp += total;
+                    if (cb.nev != 1) emit_viol("unexpected-entropy-request", "corpus history made %zu entropy requests, expected only the one at init", cb.nev);
+                    if (memcmp(got, exp, total)) { size_t fd = 0; while (got[fd] == exp[fd]) ++fd; emit_viol("drbg-output-mismatch:special-value", "output differs from the model from byte %zu on (block %zu; the rare value %s occurs at block %d)", fd, fd / 32 + 1, sp.tok[sp.ntok - 1], blk); }
+                    cb.fixed = NULL;
+                    tinyjambu_prng_free(&st);
+                }
+            }
+            fclose(f);
+        }
+        emit_stat("special_corpus_cases", n_special);
     } else if (!strcmp(a.mode, "hugecustom")) {
         /* thorough: a personalisation string of 2^32 + 5 bytes (sparse mapping).  Status, number of entropy requests and
          * the first 96 output bytes against the model (its hash runs with the batch permutation, pinned to the literal one) */
